@@ -348,6 +348,38 @@ def run(chk, prog):
     nconv_ = no_index_narrowing(chk, prog, "R9", lambda f: f.get("class") in fam_)
     chk.floor("R9-integral-conversions", nconv_, 60)
     chk.ok("R9", "src/SM", "%d integral conversions in the source-map classes examined: no cell index or size passes through an 8/16-bit integer" % nconv_)
+    # ---- R10: no transport step works in place ---------------------------------------------------------------------------------------------------
+    # every map computes a destination cell from several source cells of the same grid line; with source and destination being one grid the
+    # later cells of a line are computed from already overwritten ones and the column sums no longer describe the step.  At every
+    # construction of a map in main the `in` and `out` grids are different variables (each alternative of a conditional argument counts).
+    mainf_ = prog.fn("main")
+    chk.used(mainf_)
+    fam10 = ("RFKickMap", "DynamicRFKickMap", "DriftMap", "WakePotentialMap", "WakeFunctionMap", "FokkerPlanckMap", "Identity", "RotationMap", "KickMap")
+
+    def alts(n):
+        n = A.strip(n)
+        if n.get("k") == "ConditionalOperator":
+            return alts(n["then"]) + alts(n["else"])
+        d_ = A.declref(n)
+        return [d_["name"] if d_ is not None else None]
+    n10 = 0
+    for x in A.walk(mainf_["body"]):
+        args = None
+        if x.get("k") == "CXXNewExpr" and any((x.get("alloc_type") or "").endswith(c_) for c_ in fam10) and isinstance(x.get("init"), dict):
+            ce = A.strip(x["init"], casts=False)
+            if ce.get("k") == "CXXConstructExpr" and {"in", "out"} <= set(ce.get("callee_params") or []):
+                args = (ce["args"][ce["callee_params"].index("in")], ce["args"][ce["callee_params"].index("out")], x["alloc_type"])
+        elif x.get("k") == "CallExpr" and (x.get("callee") or "") in ("std::make_unique", "std::make_shared") and any(c_ + ">" in (x.get("ctype") or "") for c_ in fam10) and len(x.get("args", [])) >= 2:
+            args = (x["args"][0], x["args"][1], (x.get("ctype") or "").split("<")[-1].rstrip(">"))
+        if args is None:
+            continue
+        ins, outs = alts(args[0]), alts(args[1])
+        n10 += 1
+        if None in ins or None in outs:
+            raise AnalysisBroken("main: grids handed to %s are not plain variables" % args[2])
+        chk.check(not (set(ins) & set(outs)), "R10", A.loc(mainf_, x), "%s is built with different source and destination grids (in %s, out %s)"
+                  % (args[2].replace("vfps::", ""), sorted(set(ins)), sorted(set(outs))), "main:in-place:%s:%s" % (args[2].replace("vfps::", ""), sorted(set(ins) & set(outs))))
+    chk.floor("R10-map-constructions", n10, 6)
     chk.notes.append("C01: column sums of every transport operator (kick maps via weights+index maps, Fokker-Planck stencils incl. "
                      "stencil-switch rows, identity) decided as polynomial identities / index equalities for all offsets, sizes, "
                      "orders, FPTypes. Not decided: float rounding, the grid border, OpenCL kernels.")
